@@ -60,7 +60,9 @@ fn main() {
         "C04" => props::c04::run(&args, &mut acc),
         "C05" => props::c05::run(&args, &mut acc),
         "C07" => props::c07::run(&args, &mut acc),
+        "C08" => props::c08::run(&args, &mut acc),
         "C13" => props::c13::run(&args, &mut acc),
+        "C15" => props::c15::run(&args, &mut acc),
         "C14" => props::c14::run(&args, &mut acc),
         "C16" => props::c16::run(&args, &mut acc),
         "C17" => props::c17::run(&args, &mut acc),
